@@ -9,6 +9,8 @@ import Lean.Data.Json
 import Jap.Core.Namespace
 import Jap.Core.NamespaceMeta
 import Jap.Gen.NsTables
+import Jap.Core.NamespaceKeys
+import Jap.Lemmas.NamespaceThru
 
 open Lean Jap.NS
 
@@ -34,6 +36,9 @@ partial def vOfJson : Json → Except String V
       let ys ← xs.toList.mapM vOfJson
       pure (.tup ys)
     else if let .ok (.arr xs) := j.getObjVal? "d" then
+      let ys ← xs.toList.mapM kvOfJson
+      pure (.dct ys)
+    else if let .ok (.arr xs) := j.getObjVal? "D" then   -- a dict subclass: a dict like any other
       let ys ← xs.toList.mapM kvOfJson
       pure (.dct ys)
     else if let .ok (.arr xs) := j.getObjVal? "n" then
@@ -181,7 +186,82 @@ def step (st : St) (j : Json) : Json × St :=
       | .ok s => outState .null s
       | .error e => outState (errToJson e) st.cur
     | _ => outState (errToJson .type) st.cur
+  | "init_kwargs" =>
+    match initKwargs clash (strItems (getV j "v")) with
+    | .ok s => outState .null s
+    | .error e => outState (errToJson e) st.cur
+  | "from_ns" =>
+    match getV j "v" with
+    | .ns kvs => outState .null (fromNs kvs)
+    | _ => outState (errToJson .value) st.cur
+  | "init_bad" => outState (errToJson .value) st.cur
+  | "namespace_to_dict" => outState (vToJson (.dct (namespaceToDict st.cur))) st.cur
+  | "value_and_parent" =>
+    match valueAndParent clash k st.cur with
+    | .ok (v, p, l) =>
+      outState (Json.mkObj [("v", vToJson v), ("p", vToJson (.ns p)), ("l", .str (keyToString l))]) st.cur
+    | .error e => outState (errToJson e) st.cur
+  | "getattr" =>
+    match getSegs [] (mark clash k) st.cur with
+    | .ok v => outState (Json.mkObj [("v", vToJson v)]) st.cur
+    | .error _ => outState (errToJson .attr) st.cur
+  | "hasattr" => outState (.bool (clash.contains k || containsSegs [] (mark clash k) st.cur)) st.cur
+  | "delattr" =>
+    if clash.contains k then outState (errToJson .attr) st.cur
+    else match delSegs [] (mark clash k) st.cur with
+      | .ok s => outState .null s
+      | .error _ => outState (errToJson .attr) st.cur
+  | "eq_other" => outState (.bool false) st.cur
+  | "split_key" =>
+    let r := (Keys.splitDot k.toList).map String.ofList
+    if r = k.splitOn "." then outState (.arr (r.map Json.str).toArray) st.cur
+    else outState (Json.mkObj [("splitOn-differs", .str k)]) st.cur
+  | "split_key_root" => outState (.arr (((Keys.splitRoot k.toList).map String.ofList).map Json.str).toArray) st.cur
+  | "split_key_leaf" => outState (.arr (((Keys.splitLeaf k.toList).map String.ofList).map Json.str).toArray) st.cur
+  | "is_meta_key" =>
+    let a := Keys.isMetaKeyC (Jap.Gen.metaKeys.map String.toList) k.toList
+    if a = isMetaKey Jap.Gen.metaKeys k then outState (.bool a) st.cur
+    else outState (Json.mkObj [("isMetaKey-differs", .str k)]) st.cur
+  | "add_clash_mark" =>
+    let a := String.ofList (Keys.addMark (clash.map String.toList) k.toList)
+    if a = keyToString (mark clash k) then outState (.str a) st.cur
+    else outState (Json.mkObj [("mark-differs", .str k)]) st.cur
+  | "del_clash_mark" =>
+    match Keys.delMark k.toList with
+    | some r => outState (.str (String.ofList r)) st.cur
+    | none => outState (Json.mkObj [("err", "Other:IndexError")]) st.cur
   | _ => (Json.mkObj [("bad-op", .str op)], st)
+
+/-- a key that is not a string (int, float, None on the wire: anything but a JSON string): `" " in key` raises
+    `TypeError`, which `get` maps to the default and `__contains__` never reaches (`isinstance(key, str)`) -/
+def stepNonStr (st : St) (j : Json) : Json × St :=
+  let op := getStr j "op"
+  let out (r : Json) : Json × St := (Json.mkObj [("r", r), ("s", vToJson (.ns st.cur))], st)
+  match op with
+  | "getdef" => out (Json.mkObj [("v", vToJson (getV j "v"))])
+  | "contains" => out (.bool false)
+  | _ => out (errToJson .type)
+
+def keyedOps : List String := ["set", "setattr", "get", "getdef", "del", "pop", "contains", "value_and_parent"]
+
+/-- membership of the operation's key in the deviating classes (finding C11-through-dict), on the state BEFORE it -/
+def devJson (root : KV) (k : String) : Json :=
+  match parseKey clash k with
+  | .error _ => .arr #[.bool false, .bool false, .bool false]
+  | .ok segs =>
+    match splitLast segs with
+    | .none => .arr #[.bool false, .bool false, .bool false]
+    | some (p, l) => .arr #[.bool (thruDict p root), .bool (devGet p l root), .bool (devPop p l root)]
+
+def stepAll (st : St) (j : Json) : Json × St :=
+  let op := getStr j "op"
+  match j.getObjVal? "k" with
+  | .ok (.str k) =>
+    let (r, st') := step st j
+    if keyedOps.contains op then (r.setObjVal! "dev" (devJson st.cur k), st') else (r, st')
+  | .ok .null => step st j
+  | .ok _ => if keyedOps.contains op then stepNonStr st j else step st j
+  | .error _ => step st j
 
 partial def loop (h : IO.FS.Stream) (out : IO.FS.Stream) (st : St) : IO Unit := do
   let line ← h.getLine
@@ -191,7 +271,7 @@ partial def loop (h : IO.FS.Stream) (out : IO.FS.Stream) (st : St) : IO Unit := 
     out.putStrLn (Json.mkObj [("bad-json", .str e)]).compress
     loop h out st
   | .ok j =>
-    let (r, st') := step st j
+    let (r, st') := stepAll st j
     out.putStrLn r.compress
     loop h out st'
 
